@@ -175,6 +175,15 @@ def ev(e, leaf, cond_truth=None):
             return ev(e["a"][1], leaf, cond_truth)
         if t is False:
             return ev(e["a"][2], leaf, cond_truth)
+        va, vb = cval(sk(e["a"][1])), cval(sk(e["a"][2]))
+        if (va, vb) in ((1, 0), (0, 1)):
+            # `c ? 1 : 0` is the truth value of c: exact when c itself is a single bit (a comparison the leaf function
+            # knows, or a flag that holds one)
+            c = ev(sk(e["a"][0]), leaf, cond_truth)
+            if all(x == 0 for x in c[1:]) and _aff(c[0]) is not None:
+                if va == 1:
+                    return [c[0]] + [0] * (W - 1)
+                return [_mk(_aff(c[0])[0], 1 - _aff(c[0])[1])] + [0] * (W - 1)
         a, b = ev(e["a"][1], leaf, cond_truth), ev(e["a"][2], leaf, cond_truth)
         return [x if x == y else TOP for x, y in zip(a, b)]
     if k == "Un" and e["op"] == "~":
